@@ -68,7 +68,11 @@ type vfC05Program struct {
 var vfC05Names = []string{"ads.test.", "x.ads.test.", "ok.ads.test.", "host.example.", "free.example.", "4chan.org.", "rw.example.", "cn.rw.example.", "Blocked.Access.",
 	// blocked by the safe-browsing and the parental-control service: the reply
 	// is built from a lookup of the service's block host
-	"malware.sb.example.", "www.adult.pc.example."}
+	"malware.sb.example.", "www.adult.pc.example.",
+	// names the safe-search engine has rules for (several, so that not every
+	// one is answered from its cache)
+	"www.google.com.", "www.google.de.", "www.google.fr.", "www.bing.com.", "duckduckgo.com.", "www.youtube.com.", "yandex.ru.", "pixabay.com.",
+	"www.google.co.uk.", "www.google.es.", "m.youtube.com.", "yandex.com."}
 
 func vfC05DrawQuery(t *rapid.T, label string) (op vfC05Op) {
 	op.Kind = "query"
@@ -706,5 +710,115 @@ func TestVFC05Programs(t *testing.T) {
 		if vfC05.WantSample("program") {
 			vfC05.Sample("program", p)
 		}
+	})
+}
+
+// TestVFC05SafeSearchToggle: requests for names the safe-search engine has
+// rules for, from many goroutines, while the administrator switches safe
+// search off and on through PUT /control/safesearch/settings.  A dense program
+// of one kind: the general programs seldom put a request between the engine's
+// "is it on" and its use of the rules.  No panic, every request answered.
+func TestVFC05SafeSearchToggle(t *testing.T) {
+	vfkit.Begin(t)
+	rapid.Check(t, func(t *rapid.T) {
+		handlers := map[string]http.HandlerFunc{}
+		w, err := vfNewWorld(&vfWorldConf{
+			ProtectionEnabled: true, FilteringEnabled: true, WithSafeSearch: true,
+			HTTPRegister: func(method, url string, h http.HandlerFunc) { handlers[method+" "+url] = h },
+		})
+		if err != nil {
+			t.Fatalf("VERIF-INCONCLUSIVE world: %v", err)
+		}
+		defer w.close()
+		w.flt.RegisterFilteringHandlers()
+		put := handlers["PUT /control/safesearch/settings"]
+		if put == nil {
+			t.Fatalf("VERIF-INCONCLUSIVE no handler for PUT /control/safesearch/settings")
+		}
+
+		workers := rapid.IntRange(4, 8).Draw(t, "request_goroutines")
+		perWorker := rapid.IntRange(100, 400).Draw(t, "requests_each")
+		toggles := rapid.IntRange(10, 60).Draw(t, "settings_changes")
+		names := []string{"www.google.com.", "www.google.de.", "www.bing.com.", "duckduckgo.com.", "www.youtube.com.", "yandex.ru.", "pixabay.com.", "free.example."}
+
+		var wg sync.WaitGroup
+		var mu sync.Mutex
+		var failures []string
+		fail := func(format string, args ...any) {
+			mu.Lock()
+			failures = append(failures, fmt.Sprintf(format, args...))
+			mu.Unlock()
+		}
+		var progress atomic.Int64
+		var nextID atomic.Uint64
+		for g := 0; g < workers; g++ {
+			wg.Add(1)
+			go func(g int) {
+				defer wg.Done()
+				defer func() {
+					if p := recover(); p != nil {
+						fail("panic while a request was being processed: %v\n%s", p, debug.Stack())
+					}
+				}()
+				for i := 0; i < perWorker; i++ {
+					// a different name each time, so that the engine's own cache
+					// does not answer
+					name := fmt.Sprintf("%s", names[(g+i)%len(names)])
+					qt := []uint16{dns.TypeA, dns.TypeAAAA, dns.TypeHTTPS}[i%3]
+					q := vfQuery{Name: name, Qtype: qt, Addr: netip.MustParseAddrPort(fmt.Sprintf("198.18.%d.%d:4000", g, i%250+1)), Proto: proxy.ProtoUDP}
+					req := &dns.Msg{}
+					req.Id = uint16(nextID.Add(1))
+					req.RecursionDesired = true
+					req.Question = []dns.Question{{Name: q.Name, Qtype: q.Qtype, Qclass: dns.ClassINET}}
+					pctx := w.newPCtxWith(q, req, nextID.Add(1)+1<<32)
+					sent := req.Copy()
+					if berr := w.srv.HandleBefore(w.srv.dnsProxy, pctx); berr != nil {
+						fail("request %s %s refused before processing: %v", name, dns.Type(qt), berr)
+
+						return
+					}
+					if herr := w.srv.handleDNSRequest(w.srv.dnsProxy, pctx); herr != nil || pctx.Res == nil {
+						fail("request %s %s not answered: %v", name, dns.Type(qt), herr)
+
+						return
+					}
+					if pctx.Res.Id != sent.Id || len(pctx.Res.Question) != 1 || !strings.EqualFold(pctx.Res.Question[0].Name, sent.Question[0].Name) {
+						fail("response to %s %s does not echo id and question", name, dns.Type(qt))
+					}
+					progress.Add(1)
+				}
+			}(g)
+		}
+		wg.Add(1)
+		go func() {
+			defer wg.Done()
+			defer func() {
+				if p := recover(); p != nil {
+					fail("panic in PUT /control/safesearch/settings: %v", p)
+				}
+			}()
+			for i := 0; i < toggles; i++ {
+				on := i%2 == 1
+				body := fmt.Sprintf(`{"enabled":%t,"bing":true,"duckduckgo":true,"ecosia":true,"google":true,"pixabay":true,"yandex":true,"youtube":true}`, on)
+				rec := httptest.NewRecorder()
+				put(rec, httptest.NewRequest(http.MethodPut, "/control/safesearch/settings", strings.NewReader(body)))
+				if rec.Code != http.StatusOK {
+					fail("PUT /control/safesearch/settings %s: %d %s", body, rec.Code, rec.Body.String())
+				}
+				progress.Add(1)
+				runtime.Gosched()
+			}
+		}()
+		done := make(chan struct{})
+		go func() { wg.Wait(); close(done) }()
+		if !vfkit.WaitProgress(done, &progress, 60*time.Second) {
+			t.Fatalf("stall: no request and no settings change finished for 60 s")
+		}
+		if len(failures) > 0 {
+			t.Fatalf("%d failures, first: %s", len(failures), failures[0])
+		}
+		vfC05.Eval()
+		vfC05.Class("safesearch_toggle")
+		vfC05.Nontrivial(fmt.Sprintf("safesearch_toggle|%d|%d|%d", workers, perWorker, toggles))
 	})
 }
